@@ -31,7 +31,7 @@ def adapters():
 
 def build(desc, i, rnd):
     names = [n for _, n in desc.get_field_tuples()]
-    vals = {"n": i, "s": rnd.choice(["", "a", "Ab", "b"]), "l": rnd.choice([[], ["a"], ["a", "b"], ["Ab"]]), "z": None, "t": rnd.choice([True, False]), "q": rnd.choice(["a", "x"]),
+    vals = {"n": i, "s": rnd.choice(["", "a", "Ab", "b", "a  b", "a b", "a\tb"]), "l": rnd.choice([[], ["a"], ["a", "b"], ["Ab"]]), "z": None, "t": rnd.choice([True, False]), "q": rnd.choice(["a", "x"]),
             "ip": rnd.choice(["10.0.0.1", "10.0.0.2", None]), "p": rnd.choice(["/a", "/a/B", None]), "w": rnd.choice(["a", "zz"]), "m": rnd.choice(["only-in-m", "a"])}
     return desc(**{k: vals[k] for k in names}, _generated=gen.GEN)
 
@@ -44,7 +44,10 @@ def rid(r):
 
 
 def obs(r):
-    return json.dumps(observe.obs_record(r), sort_keys=True)
+    o = observe.obs_record(r)
+    if r._desc.name == "csv/reader" and isinstance(o.get("values"), dict):
+        o["values"].pop("_generated", None)      # the CSV reader stamps records it builds with the time of reading
+    return json.dumps(o, sort_keys=True)
 
 
 # independent meaning of some selectors over the WRITTEN values (used where the reader returns the values unchanged)
@@ -58,6 +61,10 @@ REF = {
     "not r.t": lambda v: not v.get("t", False),
     "r.n >= 3 or r.q == 'x'": lambda v: v["n"] >= 3 or v.get("q") == "x",
     "r.missing == 1": lambda v: False,
+    "r.s == 'a  b'": lambda v: v.get("s") == "a  b",
+    "r.s == 'a\tb'": lambda v: v.get("s") == "a\tb",
+    "r.s in ['a  b', 'zz']": lambda v: v.get("s") in ("a  b", "zz"),
+    "'  ' in r.s": lambda v: "  " in (v.get("s") or ""),
     "r.m == 'only-in-m'": lambda v: v.get("m") == "only-in-m",
     "has_field(r, 'm')": lambda v: "m" in v,
     "any(f.name == 'm' for f in fields('string'))": lambda v: "m" in v,
@@ -166,6 +173,8 @@ EXTRA_SELECTORS = ["Type.string == 'only-in-m'", "'only-in' in Type.string", "fi
                    "any(x == 'a' for x in r.l)", "any(x == 'a' for x in r.l) and any(x == 'b' for x in r.l)", "field_contains(r, ['s', 'q'], ['A'])",
                    "r.q == 'a'", "r.q != 'a'", "r.n % 2 == 0 and r.s != ''", "not r.t", "r.n >= 3 or r.q == 'x'", "r.missing == 1", "r.n",
                    "any(f.name == 's' for f in fields('string'))", "any(f.name == 'q' for f in fields('string'))", "lower(r.s) == 'ab'", "r.n in [1, 2, 5]", "r.s < 'b'",
+                   # string literals whose white space matters (two blanks, a tab)
+                   "r.s == 'a  b'", "r.s == 'a\tb'", "r.s in ['a  b', 'zz']", "'  ' in r.s",
                    # results that are falsy / truthy without being booleans
                    "r.s", "r.z", "r.l", "r.n % 2", "lower(r.s)", "r.missing", "r.t and r.s", "r.s or r.q", "r.n - 3",
                    # a comparison on a field one type lacks OR a helper / typed matcher that looks at values
@@ -218,6 +227,17 @@ def run(tier):
                     cases.append(c)
                     metas.append((aname, fname, s, q))
                     ctx.case((aname, fname, s, q))
+    # hand-made CSV input with RAGGED rows (fewer cells than the header, an empty line): a missing trailing cell is an unset field
+    ragged = os.path.join(tmp, "ragged.csv")
+    with open(ragged, "w", newline="") as f:
+        f.write('"n","s","q"\r\n"1","a","x"\r\n"2"\r\n"3","b"\r\n"4","a","x"\r\n"5","a"\r\n"6"\r\n"7","","a"\r\n"8"\r\n')
+    for s in ("r.s == 'a'", "r.q == 'x'", "r.s != 'a'", "not r.s", "r.q", "r.s == 'a' and r.q == 'x'", "r.q == None", "r.s in ['a', 'b']", "field_equals(r, ['q'], ['x'])"):
+        for fname, mk in (("text", lambda s: s), ("selector", Selector), ("compiled", CompiledSelector)):
+            c = run_case("csvfile://" + ragged, mk(s), 8)
+            c["adapter"], c["form"] = "csv-ragged", fname
+            cases.append(c)
+            metas.append(("csv-ragged", fname, s, 0))
+            ctx.case(("csv-ragged", fname, s))
     # process-wide state: two fresh interpreters meet the same-name descriptors in opposite orders
     for order in ("plain-first", "extra-field-first"):
         for c in common.in_fresh_process("c10", "fixed_order_cases", order):
